@@ -63,9 +63,16 @@ def check(ctx: Ctx, col: Collector, tier: str) -> None:
         col.touched(fi)
         p = fi.params()[1]
         outs = ctx.interp(fi).run_function(fi, {"self": Sym("self"), p: Sym(p)})
-        stores = [e for o in outs for e in o.effects if e.kind == "store" and e.target == f"self.{store}[]" and isinstance(e.args[0], Sym)]
-        okk = bool(stores) and all(isinstance(e.args[0], Sym) and e.args[0].path.endswith(".id") and isinstance(e.args[1], Sym) and e.args[0].path == e.args[1].path + ".id" for e in stores)
-        (col.ok if okk else col.bad)("C12.STORES", f"{API_MOD}::API.{meth}", repo.loc(API_MOD, fi.node), f"self.{store}[x.id] = x" if okk else f"{[repr(e) for e in stores]}",
+        # (key, value) pairs written into the store: `self.store[k] = v` or `self.store.update({k: v})`
+        pairs = [(e.args[0], e.args[1]) for o in outs for e in o.effects if e.kind == "store" and e.target == f"self.{store}[]" and len(e.args) == 2]
+        for o in outs:
+            for e in o.effects:
+                if e.kind in ("call", "mutate") and e.target == f"self.{store}.update" and e.args and isinstance(e.args[0], DictV):
+                    pairs += list(e.args[0].items)
+        pairs = [(k_, v_) for k_, v_ in pairs if isinstance(k_, Sym)]  # (keys that are not symbols come from the zero-iteration artefact of element loops)
+        stores = pairs
+        okk = bool(pairs) and all(isinstance(k_, Sym) and k_.path.endswith(".id") and isinstance(v_, Sym) and k_.path == v_.path + ".id" for k_, v_ in pairs)
+        (col.ok if okk else col.bad)("C12.STORES", f"{API_MOD}::API.{meth}", repo.loc(API_MOD, fi.node), f"self.{store}[x.id] = x" if okk else f"{[repr(e) for e in stores][:3]}",
                                      *([] if okk else [f"{meth} does not store the element under its own id in self.{store} (duplicates / dangling ids)"]))
     jfi = repo.function(API_MOD, "API.to_json_file")
     col.touched(jfi)
